@@ -158,8 +158,16 @@ def damage_ops(r, path, original, other=None):
     n = len(original)
     kinds = ["flip", "trunc", "extend", "empty", "replace"]
     if other is not None:
-        kinds += ["swap", "symlink"]
+        kinds += ["swap", "symlink", "symlink_rel"]
     k = r.pick(kinds)
+    if k == "symlink_rel":
+        # symlink substitution of the insidious kind: the content path becomes a RELATIVE link to a sibling that holds
+        # the right bytes (what `ln -sr` / a de-duplicating tool leaves) - every checked retrieval verifies fine; a file
+        # of the same name with other bytes sits next to the extraction destinations: whatever is handed out there
+        # must still be the stored bytes (F28: a hard link of the symlink itself meant the decoy)
+        d = path.rsplit("/", 1)[0]
+        return [f"put {d}/blob {hx(original)}", f"symlink {path} rel:blob", f"put out/blob {hx(b'decoy ' + other[1][:20])}"], \
+            "relative symlink to a good sibling"
     if k == "flip" and n > 0:
         i = r.randrange(n * 8)
         b = bytearray(original); b[i // 8] ^= 1 << (i % 8)
